@@ -206,7 +206,6 @@ func VC01_Coverage() {
 	}
 	e := int(uint32(img[0x3c]) | uint32(img[0x3d])<<8)
 	ck := e + 24 + 64
-	dd4 := e + 24 + 144
 	sh := 1024
 	bodyEnd := 3825
 	p, err := Parse(bytes.NewReader(img))
